@@ -32,6 +32,7 @@ def describe(s: dict | None, comps: dict, depth: int = 0) -> dict:
                         and (comps.get(m.get("name")) or {}).get("base") == "int") for m in ms)
         d["bool_and_int_enum"] = "bool" in kinds and int_enum
         d["arrays"] = kinds.count("array")
+        d["object_members"] = sum(1 for x in kinds if x in ("object", "ref:object"))
 
         def _closed(m):
             t = comps.get(m.get("name")) if m.get("k") == "ref" else m
